@@ -14,4 +14,6 @@ REPO=${EG_REPO:-/repo}; sed "s#@REPO@#$REPO#g" harness/Cargo.toml.in > harness/C
 (cd harness && cargo build --release --offline 2>&1 | tail -3) || echo "setup: harness build failed"
 # second harness binary with the fixed_point feature set (C18 trigonometry through the I16F16 table)
 (cd harness && CARGO_TARGET_DIR="$PWD/../.build/cargo-fp" cargo build --release --offline --features fixed_point 2>&1 | tail -2) || echo "setup: fixed_point harness build failed"
+# regression suite of the expression-level translator (adversarial reproducers; refuses or agrees with native Rust)
+(timeout 600 sh tools/r2c_selftest.sh 2>&1 | tail -1) || echo "setup: r2c selftest reported failures (see translate/r2c/tests)"
 echo "setup done"
